@@ -1,0 +1,345 @@
+//! Verification hooks. Compiled only with `--cfg qe_verif`; with the flag off
+//! this module does not exist and no call site refers to it. Every facility is
+//! inert until a simulator arms it, so a `qe_verif` build behaves like the
+//! shipped one (and passes the same test suite) unless it is being driven.
+
+/// Integer knobs a simulator sets per run to steer planner thresholds that are
+/// otherwise derived from the machine (worker count) or from sizes a generated
+/// table cannot reach.
+pub mod knobs {
+    use parking_lot::Mutex;
+    use std::collections::HashMap;
+    use std::sync::OnceLock;
+
+    fn map() -> &'static Mutex<HashMap<String, i64>> {
+        static M: OnceLock<Mutex<HashMap<String, i64>>> = OnceLock::new();
+        M.get_or_init(|| Mutex::new(HashMap::new()))
+    }
+    pub fn set(site: &str, v: i64) {
+        map().lock().insert(site.to_string(), v);
+    }
+    pub fn clear() {
+        map().lock().clear();
+    }
+    pub fn get(site: &str) -> Option<i64> {
+        map().lock().get(site).copied()
+    }
+    pub fn usize(site: &str) -> Option<usize> {
+        get(site).map(|v| v.max(0) as usize)
+    }
+    pub fn flag(site: &str) -> bool {
+        get(site).map(|v| v != 0).unwrap_or(false)
+    }
+}
+
+/// Cooperative scheduling points: `sched_point(site).await` returns `Pending`
+/// once, with a seeded probability, when a simulator installed a coin on this
+/// thread; otherwise it is ready immediately.
+pub mod sched {
+    use std::cell::RefCell;
+    use std::future::Future;
+    use std::pin::Pin;
+    use std::task::{Context, Poll};
+
+    pub struct State {
+        pub s: u64,
+        /// probability of yielding, out of 256
+        pub p256: u64,
+        pub trace: Vec<(&'static str, bool)>,
+    }
+    thread_local! {
+        static COIN: RefCell<Option<State>> = const { RefCell::new(None) };
+    }
+    pub fn install(seed: u64, p256: u64) {
+        COIN.with(|c| {
+            *c.borrow_mut() = Some(State {
+                s: seed | 1,
+                p256,
+                trace: Vec::new(),
+            })
+        });
+    }
+    pub fn take() -> Option<State> {
+        COIN.with(|c| c.borrow_mut().take())
+    }
+    fn flip(site: &'static str) -> bool {
+        COIN.with(|c| {
+            let mut b = c.borrow_mut();
+            match b.as_mut() {
+                None => false,
+                Some(st) => {
+                    // xorshift64*
+                    st.s ^= st.s >> 12;
+                    st.s ^= st.s << 25;
+                    st.s ^= st.s >> 27;
+                    let r = st.s.wrapping_mul(0x2545F4914F6CDD1D) >> 56;
+                    let y = r < st.p256;
+                    if st.trace.len() < 4096 {
+                        st.trace.push((site, y));
+                    }
+                    y
+                }
+            }
+        })
+    }
+    pub struct SchedPoint {
+        site: &'static str,
+        decided: bool,
+    }
+    pub fn sched_point(site: &'static str) -> SchedPoint {
+        SchedPoint {
+            site,
+            decided: false,
+        }
+    }
+    impl Future for SchedPoint {
+        type Output = ();
+        fn poll(mut self: Pin<&mut Self>, cx: &mut Context<'_>) -> Poll<()> {
+            if self.decided {
+                return Poll::Ready(());
+            }
+            self.decided = true;
+            if flip(self.site) {
+                cx.waker().wake_by_ref();
+                Poll::Pending
+            } else {
+                Poll::Ready(())
+            }
+        }
+    }
+}
+
+/// Armed I/O fault sites: `fault(site)` fails with the armed error on the k-th
+/// hit of that site.
+pub mod fault {
+    use parking_lot::Mutex;
+    use std::collections::HashMap;
+    use std::sync::OnceLock;
+
+    #[derive(Clone, Debug)]
+    pub struct Armed {
+        /// fail on this hit number (0-based) of the site
+        pub on_hit: u64,
+        pub kind: std::io::ErrorKind,
+    }
+    #[derive(Default)]
+    struct Sites {
+        armed: HashMap<String, Armed>,
+        hits: HashMap<String, u64>,
+        fired: Vec<String>,
+    }
+    fn sites() -> &'static Mutex<Sites> {
+        static S: OnceLock<Mutex<Sites>> = OnceLock::new();
+        S.get_or_init(|| Mutex::new(Sites::default()))
+    }
+    pub fn arm(site: &str, on_hit: u64, kind: std::io::ErrorKind) {
+        sites()
+            .lock()
+            .armed
+            .insert(site.to_string(), Armed { on_hit, kind });
+    }
+    /// Disarm everything; returns (hits per site, sites that fired).
+    pub fn reset() -> (HashMap<String, u64>, Vec<String>) {
+        let mut s = sites().lock();
+        s.armed.clear();
+        (std::mem::take(&mut s.hits), std::mem::take(&mut s.fired))
+    }
+    pub fn fault(site: &str) -> std::io::Result<()> {
+        let mut s = sites().lock();
+        if s.armed.is_empty() && s.hits.is_empty() {
+            // nothing armed and nobody counting: stay out of the way
+            if !COUNTING.load(std::sync::atomic::Ordering::Relaxed) {
+                return Ok(());
+            }
+        }
+        let n = {
+            let h = s.hits.entry(site.to_string()).or_insert(0);
+            let n = *h;
+            *h += 1;
+            n
+        };
+        if let Some(a) = s.armed.get(site).cloned() {
+            if a.on_hit == n {
+                s.fired.push(site.to_string());
+                return Err(std::io::Error::new(
+                    a.kind,
+                    format!("injected fault at {site} (hit {n})"),
+                ));
+            }
+        }
+        Ok(())
+    }
+    static COUNTING: std::sync::atomic::AtomicBool = std::sync::atomic::AtomicBool::new(false);
+    pub fn set_counting(on: bool) {
+        COUNTING.store(on, std::sync::atomic::Ordering::Relaxed);
+    }
+}
+
+/// Park points: a thread that was given an actor id stops at `point(site)`
+/// until the attached controller releases it.
+pub mod park {
+    use parking_lot::RwLock;
+    use std::cell::Cell;
+    use std::sync::Arc;
+
+    pub trait Controller: Send + Sync {
+        fn at(&self, actor: u32, site: &'static str);
+    }
+    static CONTROLLER: RwLock<Option<Arc<dyn Controller>>> = RwLock::new(None);
+    thread_local! {
+        static ACTOR: Cell<Option<u32>> = const { Cell::new(None) };
+    }
+    pub fn attach(c: Option<Arc<dyn Controller>>) {
+        *CONTROLLER.write() = c;
+    }
+    pub fn set_actor(a: Option<u32>) {
+        ACTOR.with(|x| x.set(a));
+    }
+    pub fn actor() -> Option<u32> {
+        ACTOR.with(|x| x.get())
+    }
+    pub fn point(site: &'static str) {
+        let Some(a) = actor() else { return };
+        let c = CONTROLLER.read().clone();
+        if let Some(c) = c {
+            c.at(a, site);
+        }
+    }
+    /// Declare BEFORE a guard so it fires after the guard's release.
+    pub struct PointOnDrop(pub &'static str);
+    impl Drop for PointOnDrop {
+        fn drop(&mut self) {
+            point(self.0);
+        }
+    }
+}
+
+/// Runtime seams: where queries and subqueries execute.
+pub mod rt {
+    use std::cell::Cell;
+    thread_local! {
+        static QUERY_RT: Cell<Option<&'static tokio::runtime::Runtime>> = const { Cell::new(None) };
+    }
+    /// Make `/sql` and `/fragment` handlers on this thread spawn their query
+    /// onto `rt` (the simulator's own paused runtime) instead of the process
+    /// wide multi-threaded one.
+    pub fn set_query_runtime(rt: Option<&'static tokio::runtime::Runtime>) {
+        QUERY_RT.with(|c| c.set(rt));
+    }
+    pub fn query_runtime_override() -> Option<&'static tokio::runtime::Runtime> {
+        QUERY_RT.with(|c| c.get())
+    }
+}
+
+/// The network seam of `distributed::http_client`.
+pub mod net {
+    use std::cell::RefCell;
+    use std::future::Future;
+    use std::io;
+    use std::pin::Pin;
+    use std::task::{Context, Poll};
+    use tokio::io::{AsyncRead, AsyncWrite, DuplexStream, ReadBuf};
+
+    /// One end of a simulated connection: a duplex pipe plus a reset flag the
+    /// simulator can raise to make the next read or write fail.
+    pub struct SimConn {
+        pub io: DuplexStream,
+        pub reset: std::sync::Arc<std::sync::atomic::AtomicBool>,
+    }
+
+    pub type ConnectFuture = Pin<Box<dyn Future<Output = io::Result<SimConn>> + Send>>;
+    /// Decides what `TcpStream::connect(addr)` means inside the simulation.
+    pub trait Connector: Send + Sync {
+        fn connect(&self, addr: &str) -> ConnectFuture;
+    }
+    thread_local! {
+        static CONNECTOR: RefCell<Option<std::sync::Arc<dyn Connector>>> = const { RefCell::new(None) };
+    }
+    pub fn set_connector(c: Option<std::sync::Arc<dyn Connector>>) {
+        CONNECTOR.with(|x| *x.borrow_mut() = c);
+    }
+
+    /// Stands in for `tokio::net::TcpStream` in `http_client`: the simulator's
+    /// connection when a connector is registered on this thread, a real socket
+    /// otherwise.
+    pub enum SimTcpStream {
+        Real(tokio::net::TcpStream),
+        Sim(SimConn),
+    }
+
+    impl SimTcpStream {
+        pub async fn connect(addr: &str) -> io::Result<SimTcpStream> {
+            let c = CONNECTOR.with(|x| x.borrow().clone());
+            match c {
+                Some(c) => Ok(SimTcpStream::Sim(c.connect(addr).await?)),
+                None => Ok(SimTcpStream::Real(
+                    tokio::net::TcpStream::connect(addr).await?,
+                )),
+            }
+        }
+        pub fn set_nodelay(&self, on: bool) -> io::Result<()> {
+            match self {
+                SimTcpStream::Real(s) => s.set_nodelay(on),
+                SimTcpStream::Sim(_) => Ok(()),
+            }
+        }
+    }
+
+    fn reset_err() -> io::Error {
+        io::Error::new(io::ErrorKind::ConnectionReset, "simulated connection reset")
+    }
+
+    impl AsyncRead for SimTcpStream {
+        fn poll_read(
+            self: Pin<&mut Self>,
+            cx: &mut Context<'_>,
+            buf: &mut ReadBuf<'_>,
+        ) -> Poll<io::Result<()>> {
+            match self.get_mut() {
+                SimTcpStream::Real(s) => Pin::new(s).poll_read(cx, buf),
+                SimTcpStream::Sim(c) => {
+                    let before = buf.filled().len();
+                    let r = Pin::new(&mut c.io).poll_read(cx, buf);
+                    // a reset is observed once the pipe has nothing more to give
+                    if let Poll::Ready(Ok(())) = &r {
+                        if buf.filled().len() == before
+                            && c.reset.load(std::sync::atomic::Ordering::SeqCst)
+                        {
+                            return Poll::Ready(Err(reset_err()));
+                        }
+                    }
+                    r
+                }
+            }
+        }
+    }
+    impl AsyncWrite for SimTcpStream {
+        fn poll_write(
+            self: Pin<&mut Self>,
+            cx: &mut Context<'_>,
+            data: &[u8],
+        ) -> Poll<io::Result<usize>> {
+            match self.get_mut() {
+                SimTcpStream::Real(s) => Pin::new(s).poll_write(cx, data),
+                SimTcpStream::Sim(c) => {
+                    if c.reset.load(std::sync::atomic::Ordering::SeqCst) {
+                        return Poll::Ready(Err(reset_err()));
+                    }
+                    Pin::new(&mut c.io).poll_write(cx, data)
+                }
+            }
+        }
+        fn poll_flush(self: Pin<&mut Self>, cx: &mut Context<'_>) -> Poll<io::Result<()>> {
+            match self.get_mut() {
+                SimTcpStream::Real(s) => Pin::new(s).poll_flush(cx),
+                SimTcpStream::Sim(c) => Pin::new(&mut c.io).poll_flush(cx),
+            }
+        }
+        fn poll_shutdown(self: Pin<&mut Self>, cx: &mut Context<'_>) -> Poll<io::Result<()>> {
+            match self.get_mut() {
+                SimTcpStream::Real(s) => Pin::new(s).poll_shutdown(cx),
+                SimTcpStream::Sim(c) => Pin::new(&mut c.io).poll_shutdown(cx),
+            }
+        }
+    }
+}
